@@ -231,8 +231,16 @@ class GroupVelocity:
     def _symmetrize_group_velocity(self, gv, q):
         """Symmetrize obtained group velocities using site symmetries."""
         rotations = []
-        for r in self._symmetry.reciprocal_operations:
+        # Dynamical matrices with NAC are evaluated at q itself and are not
+        # periodic over reciprocal lattice vectors (exactly so for the method by
+        # Wang et al., up to the truncation of the reciprocal sum for the method
+        # by Gonze et al.). Only operations that leave q itself invariant are
+        # symmetries of D around q.
+        if isinstance(self._dynmat, DynamicalMatrixNAC):
+            q_in_BZ = np.array(q, dtype="double")
+        else:
             q_in_BZ = q - np.rint(q)
+        for r in self._symmetry.reciprocal_operations:
             diff = q_in_BZ - np.dot(r, q_in_BZ)
             if (np.abs(diff) < self._symmetry.tolerance).all():
                 rotations.append(r)
